@@ -149,6 +149,16 @@ def shapes(tier, seed):
         S.append(SplitShape(f'dirs:{nm}', prog={'main.asm': prog}, files=files,
                             cfgargs=dict(origin=Sym('o0', 0, 0x1000), consts={'v2': c02.SYMS['v2'], 'o0': (0, 0x1000)}),
                             props=['C17'], binary=True, start=Sym('o0', 0, 0x1000), include_dirs=dirs, width=48, expect=['ok']))
+    # the quoted file name is a name, not program text: preprocessor symbols that happen to be spelled like one of its words
+    # (defined in the source or by the ISA definition) leave it alone
+    for nm, (defs, symbols) in {'define-with-value': (['#define part 3', '#define top other'], ()), 'define-bare': (['#define part', '#define asm'], ()),
+                                'defined-by-the-isa': ([], ('part', 'asm', 'top')),
+                                'define-names-another-file': (['#define part other'], ())}.items():
+        files = {'main.asm': '\n'.join(defs + lines[:2]) + '\n#include "part.asm"\n' + lines[4] + '\n#include "top.asm"\n',
+                 'part.asm': '\n'.join(lines[2:4]) + '\n', 'top.asm': '; nothing\n', 'other.asm': '.byte $bb\n', '3.asm': '.byte $cc\n'}
+        S.append(SplitShape(f'name-is-not-program-text:{nm}', prog={'main.asm': prog}, files=files,
+                            cfgargs=dict(origin=Sym('o0', 0, 0x1000), consts={'v2': c02.SYMS['v2'], 'o0': (0, 0x1000)}, symbols=list(symbols)),
+                            props=['C17'], binary=True, start=Sym('o0', 0, 0x1000), width=48, expect=['ok']))
     # an #include in an unselected branch has no effect at all: it may name a file that is already included, that does
     # not exist, or that is found in two directories
     prog = [('org', ('v', 'o0'), None), ('instr', 'nop', None), ('data', '.byte', [('c', 7), ('lsb', ('v', 'v2'))]), ('data', '.byte', [('c', 9)])]
